@@ -136,7 +136,7 @@ func checkC15(c *Ctx) {
 	for _, t1 := range pieces {
 		for _, t2 := range pieces {
 			for _, cm := range comments {
-				for _, pre := range []string{"", "{$x}", "{sp}"} {
+				for _, pre := range []string{"", "{$x}", "{sp}", "{call .empty /}", "{call .empty}{/call}", "y/* d */"} {
 					t1, t2, cm, pre := t1, t2, cm, pre
 					src := pre + t1 + cm.src
 					if cm.line {
@@ -168,6 +168,16 @@ func checkC15(c *Ctx) {
 		}
 	}
 	// text that must not be mistaken for a comment
+	for _, t := range []string{"{call .empty /}//host/p", "{call .empty /}//", "a/* c *///b", "/* c *///b c", "{call .empty /}/*c*/x", "{call .empty /}// c\nz"} {
+		t := t
+		want := map[string]string{"{call .empty /}//host/p": "//host/p", "{call .empty /}//": "//", "a/* c *///b": "a//b", "/* c *///b c": "//bc", "{call .empty /}/*c*/x": "x", "{call .empty /}// c\nz": "//cz"}[t]
+		add(c15item{body: "[" + t + "]", ctx: "not-a-comment", sigcls: "not-a-comment-after-tag:" + t, weak: func(out string) string {
+			if squeeze(out) != "["+want+"]" {
+				return fmt.Sprintf("non-whitespace characters %q, want %q", squeeze(out), "["+want+"]")
+			}
+			return ""
+		}})
+	}
 	for _, t := range []string{"http://x", "a://b", "x//y", "a/b", "a*/b", "a/ /b", "1/2//3", "<a href=\"http://x/y\">", "x:// y", "a//"} {
 		add(c15item{body: "{$x}" + t + "{$x}", want: "X" + refJoinLines(t) + "X", ctx: "not-a-comment", sigcls: "not-a-comment:" + t})
 		add(c15item{body: t, want: refJoinLines(t), ctx: "not-a-comment", sigcls: "not-a-comment:" + t})
@@ -198,6 +208,8 @@ func prePrinted(pre string) string {
 	switch pre {
 	case "{$x}":
 		return "X"
+	case "y/* d */":
+		return "y"
 	}
 	return ""
 }
@@ -237,7 +249,7 @@ func textShape(t string) string {
 
 func runC15Batch(c *Ctx, items []c15item) {
 	var src strings.Builder
-	src.WriteString("{namespace n}\n")
+	src.WriteString("{namespace n}\n/** */\n{template .empty}{/template}\n")
 	for i, it := range items {
 		doc := "/** */"
 		if strings.Contains(reLiteral.ReplaceAllString(it.body, ""), "$x") {
